@@ -239,6 +239,13 @@ impl Scenario for C10 {
                     }
                 }
             }
+            if rng.chance(1, 40) {
+                // a line that is longer than 64 KiB in some encodings and shorter in others
+                let unit = *rng.pick(&["x", "\u{4E00}", "\u{E9}", "ab ", "\u{1F600}"]);
+                let n = *rng.pick(&[40_000usize, 30_000, 33_000, 22_000, 66_000]) / unit.chars().count();
+                let at = t.find('\n').map_or(t.len(), |i| i + 1);
+                t.insert_str(at, &format!("Tags:{}\n", unit.repeat(n)));
+            }
             p.data = t.into_bytes();
             p.set("dec", rng.below(9) as i64);
             // every entry point: simulated readers, slices, Cursor, from_str (for the UTF-8 flavours), from_path, Chain
